@@ -235,7 +235,7 @@ class C05(common.Check):
             "0/1/2/true+-1/2^32-1); structure-aware DER mutants of every TLV node (emptied, dropped, duplicated, class/constructed bit "
             "flipped, high-tag form, leaf content shortened to every length / extended with consistent enclosing lengths, raw length octets: "
             "indefinite, 0, +-1, 2^32, 2^63, 2^64, non-minimal); whole-record garbage and PRNG byte "
-            "strings; well-formed records with long / odd domain and forest names; a cache on which an earlier load_key with unusable KDF parameters failed; valid records unprotected from caller threads while another thread loads the same root key again; 2..3 caller threads unprotecting public-key records as the first thing a new interpreter does with the library (sub-process per case). Oracle: returns | needs-network | ValueError/NotImplementedError/NotEnougData/InvalidTag/InvalidUnwrap; <= 300 KDF "
+            "strings; well-formed records with long / odd domain and forest names; a cache on which an earlier load_key with unusable KDF parameters failed; valid records unprotected from caller threads while another thread loads the same root key again; 2..3 caller threads unprotecting public-key records as the first thing a new interpreter does with the library (sub-process per case); a sample of the field / DER mutations in a child interpreter with assertions compiled out. Oracle: returns | needs-network | ValueError/NotImplementedError/NotEnougData/InvalidTag/InvalidUnwrap; <= 300 KDF "
             "calls; <= 150000 + 400*len traced lines; <= 5 s of CPU time (backstop for work outside the interpreter: regular expressions, big numbers); address-space growth during the call <= 64 MiB + 64*len (kernel high-water mark); for the field mutations and a quarter of the others the undamaged blob is unprotected afterwards on the same "
             "cache and must still return its plaintext (locks created by the library are simulated: an acquire nobody can satisfy is the "
             "outcome 'blocks'). Non-trivial = stored bytes differ from a valid blob; distinct = distinct (blob, mutation).")
@@ -244,7 +244,7 @@ class C05(common.Check):
                   "network": "simulated, none reachable; attempts classified at the seam"}
     assumptions = ["budgets are 4x (KDF) and >20x (lines) the maxima observed on valid input and affine in input length",
                    "PRNG byte strings are a weak generator and stated as such"]
-    required_fired = ("rot", "tear", "field", "der", "garbage", "outcome_needs-network", "outcome_raise", "outcome_ok", "valid_blob_after_damaged_one", "names", "bad_load_key", "reload_while_unprotecting", "thread_overlap", "first_use_in_new_process")
+    required_fired = ("rot", "tear", "field", "der", "garbage", "outcome_needs-network", "outcome_raise", "outcome_ok", "valid_blob_after_damaged_one", "names", "bad_load_key", "reload_while_unprotecting", "thread_overlap", "first_use_in_new_process", "mutations_with_assertions_compiled_out")
 
     def exhaustive(self, tier):
         return tier == "thorough"
@@ -317,6 +317,10 @@ class C05(common.Check):
             # ... and as the FIRST thing a new process does with the library (first-use initialisation shared by the threads)
             pol = {"mode": "marks", "q": (0.2, 0.35, 0.5, 0.8)[k % 4], "p": (0.0, 0.0, 0.02)[(k // 4) % 3]} if k % 8 else {"mode": "prob", "p": (0.05, 0.2)[(k // 8) % 2]}
             out.append([0, 1, ["fresh", ["threload", rng.getrandbits(30), pol, "first"]]])
+        # a sample of the field / DER mutations in a child interpreter with assertions compiled out (PYTHONOPTIMIZE=1)
+        pool = [c for c in out if c[2][0] in ("field", "garbage") and c[1] == 1]
+        for c in pool[:: max(1, len(pool) // (48 if tier == "quick" else 1500))]:
+            out.append([c[0], c[1], ["optimized", c[2]]])
         # garbage / PRNG byte strings
         n_rand = 3000 if tier == "quick" else 200000
         for i in range(n_rand):
@@ -337,6 +341,11 @@ class C05(common.Check):
         bi, with_key, fault = case
         if fault[0] == "threload":
             return run_thread_reload(case)
+        if fault[0] == "optimized":
+            v = common.run_case_fresh("C05", [bi, with_key, fault[1]], env={"PYTHONOPTIMIZE": "1"}, pristine=False)
+            if v:
+                v = {"sig": v["sig"] + "/python-O", "detail": "interpreter with assertions compiled out (PYTHONOPTIMIZE=1): " + v["detail"]}
+            return {"viol": v, "digest": "opt:" + (v["sig"] if v else "ok"), "key": common.key_hash(case), "fired": {}, "probes": {"mutations_with_assertions_compiled_out": 1}, "vtime_ns": 0}
         if fault[0] == "fresh":
             v = common.run_case_fresh("C05", [bi, with_key, fault[1]])
             if v:
@@ -393,7 +402,7 @@ class C05(common.Check):
         seen = set()
         for c in cases:  # one case of every mutation kind, so that nothing is imported for the first time under the memory watch
             k = (c[1], c[2][0])
-            if k not in seen and c[2][0] not in ("threload", "fresh"):
+            if k not in seen and c[2][0] not in ("threload", "fresh", "optimized"):
                 seen.add(k)
                 try:
                     self.run_case(c)
